@@ -1,51 +1,61 @@
 (* C14 property theorems.  Nothing but statements, `exact`, and Print Assumptions.
-   `run true` is the protocol as the code stands (a truncated reply is handled like EOF);
-   `run false` is the code before that fix.  `sched g k` is the fault injected into request k
+   `run true true` is the protocol as the code stands (a death in the version handshake of a
+   replacement helper is InternalError; a truncated reply is handled like EOF); `run false true`
+   and `run true false` are the code before the first / the second of these fixes.  `sched g k` is the fault injected into request k
    of helper generation g, so `forall sched ops` ranges over every fault pattern and every
    history of Script creations, queries, drops and get_sys_path calls, of any length. *)
 From JV Require Import Model.C14_Protocol Proofs.C14_Proofs.
 
-(* Each helper death fails at most one operation and that failure is InternalError (or, when the
-   death hits the version handshake of a replacement helper, InvalidPythonEnvironment); every
-   other failure is either a query on a Script whose helper had already crashed (InternalError,
-   no new death) or the relayed exception of a helper function that raised (no death).  So the
-   failures counted against the property are exactly as many as there were deaths. *)
+(* Each helper death fails at most one operation and that failure is InternalError - also when the
+   death hits the version handshake of a replacement helper; every other failure is either a
+   query on a Script whose helper had already crashed (InternalError, no new death) or the relayed
+   exception of a helper function that raised (no death).  So the failures counted against the
+   property are exactly as many as there were deaths. *)
 Theorem C14_one_internal_error_per_death : forall sched ops s es,
-  run true sched init ops = (s, es) ->
+  run true true sched init ops = (s, es) ->
   Forall (fun e =>
     e_deaths e <= 1 /\
-    (e_deaths e = 1 -> e_stale e = false /\
-       ((e_out e = OExc EInternal /\ e_hand e = false) \/
-        (e_out e = OExc EInvalidEnv /\ e_hand e = true))) /\
+    (e_deaths e = 1 -> e_stale e = false /\ e_out e = OExc EInternal) /\
     (forall x, e_out e = OExc x -> e_stale e = false ->
-       (e_deaths e = 1 /\ (x = EInternal \/ x = EInvalidEnv)) \/
+       (e_deaths e = 1 /\ x = EInternal) \/
        (e_deaths e = 0 /\ x = EHelper /\ raisedb (e_wire e) = true)) /\
     (e_stale e = true -> e_out e = OExc EInternal /\ e_deaths e = 0)) es /\
   length (filter fresh_failure es) = total_deaths es.
 Proof. exact one_internal_error_per_death_L. Qed.
 Print Assumptions C14_one_internal_error_per_death.
 
-(* Without a death in a handshake the only exception a crash produces is InternalError. *)
-Theorem C14_only_internal_error_without_handshake_death : forall sched ops s es,
-  (forall g, sched g 0%N = FNone \/ sched g 0%N = FRaises) ->
-  run true sched init ops = (s, es) ->
+(* The only exception a crash produces is InternalError, unconditionally. *)
+Theorem C14_only_internal_error : forall sched ops s es,
+  run true true sched init ops = (s, es) ->
   Forall (fun e => forall x, e_out e = OExc x ->
             x = EInternal \/ (x = EHelper /\ raisedb (e_wire e) = true)) es.
-Proof. exact only_internal_error_without_handshake_death_L. Qed.
-Print Assumptions C14_only_internal_error_without_handshake_death.
+Proof. exact only_internal_error_L. Qed.
+Print Assumptions C14_only_internal_error.
 
-(* ...and with one it is not: the clause "InternalError and nothing else" is refuted by a
-   replacement helper that dies while it is asked for its version (known finding). *)
-Theorem C14_handshake_death_refuted :
-  exists sched ops, In (OExc EInvalidEnv) (map e_out (snd (run true sched init ops))).
-Proof. exact handshake_death_refuted_L. Qed.
-Print Assumptions C14_handshake_death_refuted.
+(* The code before `fix: a helper that dies during the version handshake of a restart ...`:
+   a replacement helper dying in its handshake gave InvalidPythonEnvironment. *)
+Theorem C14_handshake_death_prefix_refuted :
+  exists sched ops, In (OExc EInvalidEnv) (map e_out (snd (run false true sched init ops))).
+Proof. exact handshake_death_prefix_refuted_L. Qed.
+Print Assumptions C14_handshake_death_prefix_refuted.
+
+(* The FIRST handshake of an environment is different on purpose: a crash there means the
+   executable is no usable Python - InvalidPythonEnvironment, no Environment object, helper reaped;
+   without one the environment starts in `init`, the state all other theorems start from. *)
+Theorem C14_first_handshake : forall sched,
+  (sched 1%N 0%N = FNone \/ sched 1%N 0%N = FRaises ->
+     exists h w, start_env true sched = (inl init, h, w)) /\
+  (sched 1%N 0%N <> FNone -> sched 1%N 0%N <> FRaises ->
+     exists h w, start_env true sched = (inr EInvalidEnv, h, w) /\
+                 h_crashed h = true /\ is_zombie h = false /\ h_reaped h = true).
+Proof. exact first_handshake_L. Qed.
+Print Assumptions C14_first_handshake.
 
 (* Recovery: whatever happened before, an operation on a Script whose helper has not crashed and
    whose requests meet no fault gives the answer of the run in which nothing ever fails. *)
 Theorem C14_recovery_same_answers : forall sched ops s es s0 es0,
-  run true sched init ops = (s, es) ->
-  run true no_faults init ops = (s0, es0) ->
+  run true true sched init ops = (s, es) ->
+  run true true no_faults init ops = (s0, es0) ->
   Forall (fun e => e_out e <> ONoScript) es0 ->
   forall i e e0, nth_error es i = Some e -> nth_error es0 i = Some e0 ->
     e_stale e = false -> clean (e_wire e) = true -> e_out e <> ONoScript ->
@@ -55,8 +65,8 @@ Print Assumptions C14_recovery_same_answers.
 
 (* A Script created after a crash gets a live helper of the next generation with no state. *)
 Theorem C14_recovery_new_generation : forall sched ops s es id s' e,
-  run true sched init ops = (s, es) ->
-  step true sched s (OpNew id) = (s', e) -> e_out e = OOk [] ->
+  run true true sched init ops = (s, es) ->
+  step true true sched s (OpNew id) = (s', e) -> e_out e = OOk [] ->
   h_crashed (cur s') = false /\ h_alive (cur s') = true /\
   exists sc, find_script id (scripts s') = Some sc /\ s_gen sc = h_gen (cur s') /\ s_used sc = false /\
   (h_crashed (cur s) = true -> h_gen (cur s') = N.succ (h_gen (cur s)) /\ h_states (cur s') = []).
@@ -65,7 +75,7 @@ Print Assumptions C14_recovery_new_generation.
 
 (* Helpers are started only to replace dead ones: generations = 1 + deaths. *)
 Theorem C14_helpers_started_is_one_plus_deaths : forall sched ops s es,
-  run true sched init ops = (s, es) ->
+  run true true sched init ops = (s, es) ->
   (h_gen (cur s) + (if h_crashed (cur s) then 1 else 0))%N = (1 + N.of_nat (total_deaths es))%N.
 Proof. exact spawn_accounting_L. Qed.
 Print Assumptions C14_helpers_started_is_one_plus_deaths.
@@ -74,12 +84,12 @@ Print Assumptions C14_helpers_started_is_one_plus_deaths.
    Scripts, without duplicates; right after an answered request the queue is empty and the
    helper holds exactly the live used Scripts (this one among them). *)
 Theorem C14_no_helper_state_leak : forall sched ops s es,
-  run true sched init ops = (s, es) ->
+  run true true sched init ops = (s, es) ->
   (h_crashed (cur s) = false ->
      NoDup (h_states (cur s)) /\
      forall x, In x (h_states (cur s)) <->
                In x (h_queue (cur s)) \/ In x (used_ids (h_gen (cur s)) (scripts s))) /\
-  (forall id cs s' e, step true sched s (OpQuery id cs) = (s', e) -> cs <> [] ->
+  (forall id cs s' e, step true true sched s (OpQuery id cs) = (s', e) -> cs <> [] ->
      e_stale e = false -> e_deaths e = 0 -> e_out e <> ONoScript ->
      h_crashed (cur s') = false /\ h_queue (cur s') = [] /\ In id (h_states (cur s')) /\
      forall x, In x (h_states (cur s')) <-> In x (used_ids (h_gen (cur s')) (scripts s'))).
@@ -89,7 +99,7 @@ Print Assumptions C14_no_helper_state_leak.
 (* Every helper that is not running has been through _cleanup_process: no zombies, and the only
    pipe ends still open are the three of a live current helper. *)
 Theorem C14_dead_helpers_reaped : forall sched ops s es,
-  run true sched init ops = (s, es) ->
+  run true true sched init ops = (s, es) ->
   Forall (fun h => (h_alive h = false -> h_reaped h = true) /\
                    (h_crashed h = true -> h_alive h = false /\ h_reaped h = true /\ h_states h = []) /\
                    (h_crashed h = false -> h_alive h = true /\ h_reaped h = false)) (helpers s) /\
@@ -102,24 +112,30 @@ Print Assumptions C14_dead_helpers_reaped.
 (* The code before the fix: one death (a truncated reply), two failing queries on fresh Scripts,
    one of them not InternalError.  This is what the differential must (and does) tell apart. *)
 Theorem C14_truncated_reply_prefix_refuted :
-  exists sched ops, let es := snd (run false sched init ops) in
+  exists sched ops, let es := snd (run true false sched init ops) in
     total_deaths es = 1 /\ length (filter fresh_failure es) = 2 /\ In (OExc EUnpickling) (map e_out es).
 Proof. exact truncated_reply_prefix_refuted_L. Qed.
 Print Assumptions C14_truncated_reply_prefix_refuted.
 
 (* non-vacuity: the same history on the code as it is: one death, one failure, recovery *)
 Example C14_example_truncated_now :
-  let es := snd (run true wit_sched2 init wit_ops2) in
+  let es := snd (run true true wit_sched2 init wit_ops2) in
   map e_out es = [OOk []; OExc EInternal; OOk []; OOk []; OOk [6%N]; OOk []; OOk [7%N]] /\
   total_deaths es = 1 /\ length (filter fresh_failure es) = 1.
 Proof. vm_compute. auto. Qed.
 
 (* non-vacuity of the recovery theorem: three crashes in a row, then the undisturbed answers *)
 Example C14_example_three_crashes :
-  map e_out (snd (run true (sched_of [(1%N, 2%N, FDeadBefore); (2%N, 1%N, FTrunc); (3%N, 1%N, FDiesAfter)]) init
+  map e_out (snd (run true true (sched_of [(1%N, 2%N, FDeadBefore); (2%N, 1%N, FTrunc); (3%N, 1%N, FDiesAfter)]) init
     [OpNew 1%N; OpQuery 1%N [CEcho 1%N; CEcho 2%N]; OpDrop 1%N; OpNew 2%N; OpQuery 2%N [CEcho 1%N; CEcho 2%N];
      OpNew 3%N; OpQuery 3%N [CEcho 1%N; CEcho 2%N]; OpNew 4%N; OpQuery 4%N [CEcho 1%N; CEcho 2%N];
      OpQuery 1%N [CEcho 9%N]]))
   = [OOk []; OExc EInternal; OOk []; OOk []; OExc EInternal; OOk []; OExc EInternal; OOk [];
      OOk [1%N; 2%N]; ONoScript].
+Proof. vm_compute. reflexivity. Qed.
+
+(* non-vacuity: the handshake witness on the code as it is: InternalError, then recovery *)
+Example C14_example_handshake_now :
+  map e_out (snd (run true true wit_sched1 init wit_ops1))
+  = [OOk []; OExc EInternal; OExc EInternal; OOk []; OOk [6%N]].
 Proof. vm_compute. reflexivity. Qed.
